@@ -26,3 +26,7 @@ impl<'me> ClaimGuard<'me> {
         false
     }
 }
+/// The key is being executed by this very thread: re-entry is reported as a cycle.
+pub(crate) fn stub_try_claim_cycle<'me>(_this: &'me SyncTable, _zalsa: &'me Zalsa, _zalsa_local: &'me ZalsaLocal, _key_index: Id, _reentrant: Reentrancy) -> ClaimResult<'me> {
+    ClaimResult::Cycle { inner: false }
+}
